@@ -178,6 +178,10 @@ func (c *Crew) SetMachine(ctx context.Context, mid string, src *crew.SpecSource,
 		}
 
 		c.Machines[mid] = m
+	} else if state != nil {
+		// Replace the state of the existing machine (the
+		// change is reported below, so it has to happen).
+		m.State = DefaultState(state)
 	}
 
 	if src != nil {
